@@ -121,3 +121,65 @@ contract(
             " + (0 if dn <= 0 else (dn + bin_width * bin_height - 1) // (bin_width * bin_height))"),
     ],
 )
+
+
+# ---- C17: instgen.Hardness.evaluate and ErrorsAndHardness.evaluate return values in [0, 1].
+# Hardness.evaluate accumulates one term per inner run; the argument is the loop invariant 0 <= result <= runs:
+#   #term   (the statements from the normalisation of `quality` to `result += ...`): preserves the invariant, for whatever
+#           the inner run delivered (quality, last improvement FE: arbitrary) - the code either raises or adds a term in [0, 1];
+#   return  : under the invariant and runs >= 1 the returned value lies in [0, 1].
+#   #clamped: alternatively, the return statement alone yields a value in [0, 1] for ANY `result` (the final clamp).
+# The plan lists {#clamped} and {#term, return} as alternative arguments: one of them has to go through.  Both the
+# checks-with-raise and the clamps establish the clause; removing redundant safeguards stays quiet as long as one
+# argument remains.  Not machine-checked: that nothing else between the two blocks assigns `result` / `runs`
+# (the `with execs.execute()` frame is outside the subset).
+_any_real = contract("<opaque>:inner_run_result", params={}, returns=REAL, ensures=["True"],
+                     assumptions=["Process.get_last_improvement_fe() returns some number (nothing is assumed about it)"])
+contract(
+    "moptipyapps.binpacking2d.instgen.hardness:Hardness.evaluate#term",
+    props="C17",
+    block=("assign quality #1", "assign result #1"),
+    params={"quality": REAL, "ub": REAL, "lb": REAL, "max_fes": PYINT, "result": REAL, "runs": PYINT, "f": OBJ, "proc": OBJ},
+    i64=False, npscalars=True,
+    opaque={"proc.get_last_improvement_fe": _any_real},
+    requires=["lb < ub", "max_fes >= 2", "runs >= 1 and 0 <= result and result <= runs - 1"],
+    ensures=[tag("C17", "one-term-in-unit-interval-added", "0 <= result and result <= runs")],
+    assumptions=["lb < ub is checked (with raise) just before the block; max_fes >= 2 by the constructor's check_int_range"],
+)
+contract(
+    "moptipyapps.binpacking2d.instgen.hardness:Hardness.evaluate#clamped",
+    props="C17",
+    block=("return #0", "return #0"),
+    params={"result": REAL, "runs": PYINT},
+    i64=False, npscalars=True,
+    requires=["runs >= 1"],
+    returns=REAL,
+    ensures=[tag("C17", "clamped-to-unit-interval", "0 <= return_value and return_value <= 1")],
+    assumptions=["at least one executor and one run (runs >= 1 at the return)"],
+)
+contract(
+    "moptipyapps.binpacking2d.instgen.hardness:Hardness.evaluate",
+    props="C17",
+    block=("return #0", "return #0"),
+    params={"result": REAL, "runs": PYINT},
+    i64=False, npscalars=True,
+    requires=["runs >= 1 and 0 <= result and result <= runs"],
+    returns=REAL,
+    ensures=[tag("C17", "mean-of-terms-in-unit-interval", "0 <= return_value and return_value <= 1")],
+    assumptions=["at least one executor and one run (runs >= 1 at the return; n_runs >= 1 is checked by the constructor, an empty "
+                 "executor tuple would divide by zero)",
+                 "loop invariant 0 <= result <= runs: established by `result = 0.0; runs = 0`, preserved by the #term block"],
+)
+
+_unit = contract("<opaque>:unit_interval_objective", params={"x": OBJ}, returns=REAL, ensures=["True"],
+                 assumptions=["Hardness.evaluate / Errors.evaluate return some float (their own ranges are proved separately and "
+                              "are NOT used here: the clamp alone carries the post-condition)"])
+contract(
+    "moptipyapps.binpacking2d.instgen.errors_and_hardness:ErrorsAndHardness.evaluate",
+    props="C17",
+    params={"x": OBJ},
+    i64=False, npscalars=True,
+    opaque={"self.hardness.evaluate": _unit, "self.errors.evaluate": _unit},
+    returns=REAL,
+    ensures=[tag("C17", "clamped-to-unit-interval", "0 <= result and result <= 1")],
+)
